@@ -120,11 +120,9 @@ def run_case(case: dict[str, Any]) -> dict[str, Any]:
         pol = simdist.LazyCompletion(seed)
     out = refreplay.replay(cfg, h, seed, policy=pol)
     issues = []
-    if cfg.W == 1:
-        # W = 1 replay runs without a world: re-run inside a world of one to
-        # observe that nothing is communicated
-        out = refreplay.replay(
-            kaisa.Config(**{**case['cfg'], 'W': 1}), h, seed)
+    # W = 1: an INITIALISED world of one (policy given => simdist world);
+    # KfacDist derives the empty program, Conforms compares it with what
+    # the real code issued
     for m in out['mismatches'][:2]:
         issues.append((f'{m["cat"]} after {m["act"]} (op {m["at"]}): '
                        f'{m["msg"]}', {'kind': 'term', 'cat': m['cat']}))
@@ -189,7 +187,7 @@ def main(tier: str, seed: int) -> int:
         for what, sig in lst:
             v.violation(f'{what} :: {json.dumps(c["cfg"])}', sig,
                         replay={'w1': c})
-    worlds = [2, 4] if tier == 'quick' else [2, 3, 4, 6, 8]
+    worlds = [1, 2, 4] if tier == 'quick' else [1, 2, 3, 4, 6, 8]
     r0, tuples = config_lattice.enumerate_configs(worlds, ['zero', 'tiny', 'big'])
     valid = [t['c'] for t in tuples if not t['d']['rejected']]
     rng = random.Random(seed)
